@@ -366,6 +366,12 @@ func (ea *errAnalysis) runE1E2E4(ruleDrop, ruleSwallow, ruleLossy string, only f
 		e    ssa.Value
 	}
 	var sites []site
+	// errors received from a channel (result of a background storage write)
+	type rsite struct {
+		fn *ssa.Function
+		in *ssa.UnOp
+	}
+	var rsites []rsite
 	// deferred / go calls that produce an error: result is unobservable
 	type dsite struct {
 		fn *ssa.Function
@@ -390,6 +396,10 @@ func (ea *errAnalysis) runE1E2E4(ruleDrop, ruleSwallow, ruleLossy string, only f
 					return
 				}
 				dsites = append(dsites, dsite{fn, in})
+			case *ssa.UnOp:
+				if x.Op == token.ARROW && !x.CommaOk && isErrorType(x.Type()) {
+					rsites = append(rsites, rsite{fn, x})
+				}
 			}
 		})
 	}
@@ -466,6 +476,25 @@ func (ea *errAnalysis) runE1E2E4(ruleDrop, ruleSwallow, ruleLossy string, only f
 				o := c.bad(ruleSwallow, key, pos, fmt.Sprintf("on the err != nil edge the function reaches a return with a nil error at %s", l.ipos(bad[0])))
 				o.Path = fmt.Sprintf("%s: if at %s → return at %s", l.fname(s.fn), l.ipos(iff), l.ipos(bad[0]))
 			}
+		}
+	}
+	for _, r := range rsites {
+		if !hasErrResult(r.fn) || (only != nil && !only(r.fn)) {
+			continue
+		}
+		key := l.fname(r.fn) + " ← <-" + roleOf(l, r.in.X, "", 0)
+		u := ea.usesOf(r.in)
+		if !u.real() {
+			c.bad(ruleDrop, key, l.ipos(r.in), "an error received from a background write is never examined (overwritten or dropped): a failed batch is reported as success")
+			continue
+		}
+		c.ok(ruleDrop, key, l.ipos(r.in), "received error is tested, returned or passed on")
+		for _, iff := range u.checked {
+			if iff == nil {
+				continue
+			}
+			bad := ea.swallowPaths(r.fn, r.in, iff, u)
+			c.decide(ruleSwallow, key, l.ipos(r.in), len(bad) == 0, "no success return reachable from the err != nil edge", "on the err != nil edge of a received background-write error the function reaches a return with a nil error")
 		}
 	}
 	for _, d := range dsites {
@@ -1039,4 +1068,77 @@ func (ea *errAnalysis) canReturnNilWithErr(callee *ssa.Function, pi, depth int) 
 		}
 	}
 	return false
+}
+
+// runE3Strict: for iterators whose Valid() turns false on an error AND whose
+// loop feeds an effectful callback, the error must be consulted before the
+// callback can run again: from the Valid()==false edge no call through a
+// function-typed parameter is reachable until Error() was examined.
+// (Otherwise "the other tree is exhausted" is concluded from a failed read and
+// acted upon — e.g. live nodes are queued for deletion — before the error is
+// reported.)
+func (ea *errAnalysis) runE3Strict(rule string, fns ...*ssa.Function) {
+	c, l := ea.c, ea.l
+	for _, fn := range fns {
+		if fn == nil {
+			c.anchorMissing(rule, "function for strict iterator check")
+			continue
+		}
+		isCallback := func(in ssa.Instruction) bool {
+			cc := callCommon(in)
+			if cc == nil || cc.IsInvoke() {
+				return false
+			}
+			_, isParam := stripTrivial(cc.Value).(*ssa.Parameter)
+			return isParam
+		}
+		done := map[ssa.Value]bool{}
+		n := 0
+		allInstrs(fn, func(in ssa.Instruction) {
+			recv, ok := ea.iterRecvOfValid(in)
+			if !ok {
+				return
+			}
+			recv = stripTrivial(recv)
+			if done[recv] {
+				return
+			}
+			done[recv] = true
+			var starts []point
+			allInstrs(fn, func(in2 ssa.Instruction) {
+				if !isMethodCallOn(in2, recv, "Valid") {
+					return
+				}
+				for _, r := range refs(in2.(ssa.Value)) {
+					if iff, ok := r.(*ssa.If); ok {
+						starts = append(starts, blockStart(iff.Block().Succs[1]))
+					}
+				}
+			})
+			var bad ssa.Instruction
+			searchFrom(starts, func(x ssa.Instruction) bool {
+				if isMethodCallOn(x, recv, "Error") {
+					return true
+				}
+				if isMethodCallOn(x, recv, "Valid") {
+					return true // re-tested: a fresh decision
+				}
+				if isCallback(x) && bad == nil {
+					bad = x
+					return true
+				}
+				return false
+			})
+			n++
+			k := l.fname(fn) + " iterator " + describeRecv(l, recv) + " error before acting"
+			msg := ""
+			if bad != nil {
+				msg = "after this iterator stopped (possibly on a failed read) the callback at " + l.ipos(bad) + " can run before Error() is consulted: the traversal acts on a wrong 'exhausted' conclusion and only then reports the error"
+			}
+			c.decide(rule, k, l.ipos(in), bad == nil, "Error() is consulted before the callback can run again", msg)
+		})
+		if n == 0 {
+			c.anchorMissing(rule, "no iterator loop in "+l.fname(fn))
+		}
+	}
 }
